@@ -627,11 +627,11 @@ def check_replay_model(res, pairs):
 def build_cases(ctx):
     rng = ctx.rng
     thorough = ctx.tier == "thorough" or ctx.deep
-    n_plans = ctx.budget(2, 60)
+    n_plans = ctx.budget(3, 120)
     cases = []
     for i in range(n_plans):
         plan = gen_wf_plan(rng, npoints=None if thorough else rng.choice([2, 2, 3]))
-        cases += sweep(rng, plan, n_double=(40 if thorough else 12), n_triple=(25 if thorough else 0))
+        cases += sweep(rng, plan, n_double=(16 if thorough else 12), n_triple=(10 if thorough else 0))
     # the separate stream outside the hypothesis: a motor is moved after the bundle, before the next checkpoint
     for i in range(ctx.budget(1, 6)):
         plan = gen_wf_plan(rng, npoints=2, unsafe_tail=True)
